@@ -649,9 +649,11 @@ fn drive(sh: &Arc<Shared>, mut fut: Pin<Box<dyn Future<Output = ()>>>, batch: us
 			if st.started != last_started {
 				last_started = st.started;
 				last_change = std::time::Instant::now();
-			} else if !st.blocked.is_empty() && last_change.elapsed() > Duration::from_millis(if STALLS.load(Ordering::Relaxed) > 20 { 5 } else { 300 }) {
+			} else if last_change.elapsed() > if st.blocked.is_empty() { Duration::from_millis(if STALLS.load(Ordering::Relaxed) > 3 { 100 } else { 2000 }) } else { Duration::from_millis(if STALLS.load(Ordering::Relaxed) > 20 { 5 } else { 300 }) } {
 				// An implementation may run several items inside one task: the items behind a gated
-				// one cannot start before it is released. Nothing moves any more: give up schedule
+				// one cannot start before it is released. (With nothing waiting at a gate: items were
+				// taken from the input but their callbacks are not invoked; whether that loses output
+				// is for the oracle to say.) Nothing moves any more: give up schedule
 				// control for this case (all gates open from now on); the oracle does not depend on it.
 				STALLS.fetch_add(1, Ordering::Relaxed);
 				st.open_all = true;
